@@ -10,7 +10,7 @@ def run(ctx):
     r = rng("C02")
     # MC + REPLAY: every terminal state of the bounded NoteTrack machine
     beh = _notes.mc_notetrack(ctx, "C02")
-    cases = _notes.cases_from_notetrack(ctx, beh, "C02", r)
+    cases = _notes.cases_from_notetrack(ctx, beh, "C02", r, limit=ctx.pick(12000, None))
     _notes._judge(ctx, cases, "C02", "NoteTrack.tla terminal states")
     # exhaustive group table: 32 combinations x flags x line rotations x S/E interleavings
     cases = []
